@@ -1226,9 +1226,9 @@ def history_case(ctx, r, lines, checks, directed=None):
                 do(f'poly.relabel_variables({mp!r})')
                 new = {frozenset(mp.get(v, v) for v in t): b for t, b in ref.items()}
                 ref.clear(); ref.update(new)
-                # conflict-free mappings are in the object model (Red.safeRelabel / relabelStep); a swap / cycle goes through
-                # resolve_label_conflict (not modelled): the model history starts again from the current terms
-                hist['ops'].append('relabel@' + ','.join(f'{lab(a)}>{lab(b)}' for a, b in mp.items()) if kind == 'relabel' else None)
+                # conflict-free mappings: Red.safeRelabel / relabelStep; a swap / cycle goes through resolve_label_conflict: Red.relabelConflict
+                conflict = any(v in set(mp.values()) for v in mp)        # the code's own test in iter_safe_relabels
+                hist['ops'].append(('relabelvia@' if conflict else 'relabel@') + ','.join(f'{lab(a)}>{lab(b)}' for a, b in mp.items()))
         state['last'] = kind; state['since'].append(kind)
         ctx.tick(f'history:mut:{kind}')
         try:
